@@ -9,7 +9,10 @@ The virtual executor honours exactly the contract the code under test relies on:
   persists from task to task, as in a real pool; arguments and results cross the boundary by pickle);
 * results are delivered in submission order; the consumer's loop body runs between deliveries;
 * an exception in a task is re-raised in the consumer when that result is delivered;
-* leaving the `with` block runs every task still pending (shutdown(wait=True) does not cancel).
+* leaving the `with` block runs every task still pending (shutdown(wait=True) does not cancel);
+* `submit` is eager (the task is pending at once; tasks already pending may run before the call returns),
+  `Future.result()` and `as_completed()` are scheduling points: any pending task may run first, and
+  `as_completed` may yield any finished future next (every completion order is explored).
 
 Every point where more than one of {produce next item, run pending task i on worker w, deliver next result}
 is enabled is a *choice point*; `explore()` enumerates every complete choice sequence by depth-first search,
@@ -316,8 +319,91 @@ def make_executor_class(scheduler, workers=2, log=None):
             return results()
 
         def submit(self, fn, *args, **kwargs):
-            raise NotImplementedError("the code under test only uses Executor.map")
+            """Eager submission: the task is pending from now on; tasks already pending may run first."""
+            if kwargs:
+                import functools
 
+                fn = functools.partial(fn, **kwargs)
+            while True:
+                actions = [("submit", None, None)] + self._run_actions()
+                kind, idx, w = self._choose(actions)
+                if kind == "submit":
+                    break
+                self._run(self._tasks[idx], self._get_worker(w))
+            t = _Task(len(self._tasks), fn, args)
+            self._tasks.append(t)
+            if log is not None:
+                log.append(("submit", self._pool_id, t.index))
+            return VirtualFuture(self, t)
+
+        def _run_actions(self):
+            return [("run", t.index, w) for t in self._tasks if t.state == "pending" for w in self._worker_choices()]
+
+        def _choose(self, actions):
+            labels = [a[0] if a[1] is None else f"{a[0]}{a[1]}" + (f"@w{a[2]}" if a[2] is not None else "") for a in actions]
+            return actions[scheduler.choose(labels)]
+
+    class VirtualFuture:
+        """Future of a submitted task; result() is a scheduling point (other pending tasks may run first)."""
+
+        def __init__(self, pool, task):
+            self._pool, self._task = pool, task
+
+        def done(self):
+            return self._task.state == "done"
+
+        def result(self, timeout=None):
+            pool, task = self._pool, self._task
+            while True:
+                actions = ([("result", task.index, None)] if task.state == "done" else []) + pool._run_actions()
+                kind, idx, w = pool._choose(actions)
+                if kind == "result":
+                    break
+                pool._run(pool._tasks[idx], pool._get_worker(w))
+            if log is not None:
+                log.append(("deliver", pool._pool_id, task.index))
+            out = task.result
+            if out[0] == "exc":
+                raise out[1]
+            return out[1]
+
+        def exception(self, timeout=None):
+            try:
+                self.result()
+            except BaseException as e:  # noqa: BLE001
+                return e
+            return None
+
+        def add_done_callback(self, fn):
+            raise NotImplementedError("virtual futures: done callbacks are not modelled")
+
+    def as_completed(fs, timeout=None):
+        """Yield futures as they complete: any finished, not yet yielded future may come next, and any pending
+        task may finish first - every completion order is a schedule."""
+        fs = list(fs)
+        left = list(fs)
+        while left:
+            pool = left[0]._pool
+            actions = [("yield", f._task.index, None) for f in left if f._task.state == "done"] + pool._run_actions()
+            kind, idx, w = pool._choose(actions)
+            if kind == "yield":
+                f = next(x for x in left if x._task.index == idx)
+                left.remove(f)
+                yield f
+            else:
+                pool._run(pool._tasks[idx], pool._get_worker(w))
+
+    def wait(fs, timeout=None, return_when="ALL_COMPLETED"):
+        fs = list(fs)
+        for f in fs:
+            if f._task.state == "pending":
+                f._pool._run(f._task, f._pool._default_worker())
+        import collections
+
+        return collections.namedtuple("DoneAndNotDoneFutures", "done not_done")(set(fs), set())
+
+    VirtualExecutor.as_completed = staticmethod(as_completed)
+    VirtualExecutor.wait = staticmethod(wait)
     return VirtualExecutor
 
 
@@ -331,10 +417,21 @@ class patched_pool:
         import concurrent.futures as cf
 
         self._cf = cf
-        self._orig = cf.ProcessPoolExecutor
+        self._orig = (cf.ProcessPoolExecutor, cf.as_completed, cf.wait)
         cf.ProcessPoolExecutor = self.cls
+        virt_ac, virt_wait, real_ac, real_wait = self.cls.as_completed, self.cls.wait, cf.as_completed, cf.wait
+
+        def as_completed(fs, timeout=None):
+            fs = list(fs)
+            return virt_ac(fs) if fs and hasattr(fs[0], "_task") else real_ac(fs, timeout)
+
+        def wait(fs, timeout=None, return_when="ALL_COMPLETED"):
+            fs = list(fs)
+            return virt_wait(fs) if fs and hasattr(fs[0], "_task") else real_wait(fs, timeout, return_when)
+
+        cf.as_completed, cf.wait = as_completed, wait
         return self
 
     def __exit__(self, *exc):
-        self._cf.ProcessPoolExecutor = self._orig
+        self._cf.ProcessPoolExecutor, self._cf.as_completed, self._cf.wait = self._orig
         return False
